@@ -55,7 +55,7 @@ ASSUMPTIONS = ["docutils front end (publish with MyST Parser); line numbers obse
                "option warnings of a directive may carry the line of the directive or of its option block opener "
                "(colon style reports the former, dash style the latter; both pinned by the repository's fixtures)"]
 
-EXT = ["colon_fence", "deflist", "fieldlist", "dollarmath", "amsmath"]
+EXT = ["colon_fence", "deflist", "fieldlist", "dollarmath", "amsmath", "attrs_block"]
 # container-type directives -> the node they produce.  Beyond the admonitions (which call state.nested_parse themselves):
 # epigraph / pull-quote / highlights go through MockState.block_quote (+ attribution), topic / sidebar through
 # inline_text (title) + nested_parse, compound / container through nested_parse.
@@ -221,7 +221,12 @@ class Gen:
             kinds.append("icode")
         if in_item_first:
             kinds = ["para", "para2", "heading", "code", "badrole"]
-        return B(r.choice(kinds), self.mk())
+        b = B(r.choice(kinds), self.mk())
+        if b.kind == "code":
+            b.p["lang"] = r.choice(CODE_LANGS)
+            if not in_item_first and r.random() < 0.4:
+                b.p["attrs"] = r.choice(sorted(CODE_ATTRS))
+        return b
 
     def block(self, depth, prev_kind, first_in=None):
         r = self.rng
@@ -326,6 +331,8 @@ def fence_heights(b):
 
 
 OPTS = [("class", "c1"), ("name", None)]
+CODE_LANGS = ["text", "text", "", "python", "mermaidxyz", "mermaidxyz", "python extra words", "mermaidxyz extra words"]
+CODE_ATTRS = {"lineno": ["{lineno-start=3}"], "emph": ['{emphasize-lines="1"}'], "both": ['{lineno-start=3 emphasize-lines="1"}']}
 
 
 def print_seq(bs, start, file, chain, files, out_records):
@@ -351,7 +358,10 @@ def print_block(b, start, file, chain, files, rec):
     if k == "heading":
         return [f"# Head {mk}"]
     if k == "code":
-        return ["~~~text", f"code {mk}", "~~~"]
+        # fence variants: no / known / unknown-to-Pygments language, extra info words, attrs_block line before the fence
+        pre = CODE_ATTRS.get(b.p.get("attrs"), [])
+        b.start = start + len(pre)          # the literal_block sits on the fence's line
+        return pre + ["~~~" + b.p.get("lang", "text"), f"code {mk}", "~~~"]
     if k == "icode":
         return [f"    icode {mk}"]
     if k == "target":
@@ -535,7 +545,7 @@ def expected_records(recs, main, files=None):
 def build_case(rng, max_depth=5, nblocks=None):
     g = Gen(rng, max_depth=max_depth)
     doc = g.seq(1, nblocks or rng.randint(1, 4))
-    return {"doc": [b.to_json() for b in doc], "front": rng.random() < 0.2,
+    return {"doc": [b.to_json() for b in doc], "front": rng.random() < 0.2, "nohl": rng.random() < 0.3,
             "files": {f: {"pre": [b.to_json() for b in s["pre"]], "body": [b.to_json() for b in s["body"]],
                           "post": [b.to_json() for b in s["post"]], "mode": s["mode"]} for f, s in g.files.items()}}
 
@@ -569,7 +579,7 @@ NODE_TAGS = {"paragraph", "title", "section", "rubric", "literal_block", "target
              "attribution", "topic", "sidebar", "compound", "line_block"}
 
 
-def observe(text, files):
+def observe(text, files, nohl=False):
     """(nodes, warnings): nodes = (tag, first marker, line, file) in pre-order; warnings = (message, line, file)."""
     from docutils import nodes as N
     from lib.impl import parse_only, parse_warnings, scratch_dir
@@ -578,7 +588,8 @@ def observe(text, files):
             with open(os.path.join(d, f), "w", encoding="utf8") as fh:
                 fh.write(t)
         main = os.path.join(d, "main.md")
-        doc, ws = parse_only(text, {"myst_enable_extensions": EXT}, source_path=main)
+        doc, ws = parse_only(text, dict({"myst_enable_extensions": EXT}, **({"myst_highlight_code_blocks": False} if nohl else {})),
+                             source_path=main)
         out = []
 
         def walk(n):
@@ -663,7 +674,7 @@ def check_case(ctx, case):
     text, files, recs = realise(case)
     exp_nodes, exp_warns = expected_records(recs, "main.md", realise.trees)
     try:
-        got_nodes, got_warns = observe(text, files)
+        got_nodes, got_warns = observe(text, files, nohl=bool(case.get("nohl")))
     except Exception as e:
         ctx.fail("exception:" + type(e).__name__, case, f"parsing the generated document raised {e!r}")
         return False
@@ -833,6 +844,42 @@ def fixed_cases():
                                                                                    {"kind": "badrole", "mk": 1005, "p": {}, "ch": []}],
                                           "post": [para(1006)], "mode": mode}}})
     out += mock_method_cases()
+    out += code_block_cases()
+    return out
+
+
+def code_block_cases():
+    """fenced code with no / known / unknown-to-Pygments language (+ extra info words), with and without lineno-start /
+    emphasize-lines attrs, indented code; highlighting on and off; at top level (after a directive, so that a stale
+    document.current_line differs from the true line) and nested in quote / list item / directive."""
+    def para(n):
+        return {"kind": "para", "mk": n, "p": {}, "ch": []}
+    note = {"kind": "dir", "mk": 80, "p": dict(name="note", fence="`", style="none", nopts=0, badopt=False, blank_before=0,
+                                               blank_after=0, firstline=False), "ch": [para(81)]}
+    out = []
+    for nohl in (False, True):
+        for how in ("top", "quote", "item", "note"):
+            leaves = []
+            n = 1
+            for lang in sorted(set(CODE_LANGS)):
+                for attrs in (None,) + tuple(sorted(CODE_ATTRS)):
+                    p = {"lang": lang}
+                    if attrs:
+                        p["attrs"] = attrs
+                    leaves.append({"kind": "code", "mk": n, "p": p, "ch": []})
+                    n += 1
+            leaves += [para(n), {"kind": "icode", "mk": n + 1, "p": {}, "ch": []}]
+            if how == "top":
+                doc = [note] + leaves
+            elif how == "quote":
+                doc = [note, {"kind": "quote", "mk": 91, "p": {}, "ch": [para(92)] + leaves}]
+            elif how == "item":
+                doc = [note, {"kind": "blist", "mk": 91, "p": {"tight": False}, "ch": [[para(92)] + leaves]}]
+            else:
+                doc = [note, {"kind": "dir", "mk": 91, "p": dict(name="tip", fence="`", style="none", nopts=0, badopt=False,
+                                                                 blank_before=1, blank_after=0, firstline=False),
+                              "ch": [para(92)] + leaves}]
+            out.append({"doc": doc, "files": {}, "nohl": nohl})
     return out
 
 
